@@ -139,7 +139,8 @@ class RecheckProp(Prop):
             f = rng.randrange(nfiles)
             kind, arg = rng.choice(damage_options(t["files"][f]["size"], P))
             damage.append({"file": f, "kind": kind, "arg": arg})
-        return {"scaled": False, "version": v, "meta_src": src, "P": P, "tree": t, "damage": damage,
+        return {"scaled": False, "extra_keys": rng.random() < 0.3, "rel_paths": rng.random() < 0.25,
+                "version": v, "meta_src": src, "P": P, "tree": t, "damage": damage,
                 "route": route or ("cli" if rng.random() < 0.15 else "lib"),
                 "path_mode": path_mode, "group": group or "none", "clauses": clauses,
                 "shape": sh}
@@ -180,7 +181,8 @@ class RecheckProp(Prop):
         t = case["tree"]
         return (case["version"], case["meta_src"], case["P"], tuple(f["size"] for f in t["files"]),
                 tuple((d["file"], d["kind"], d["arg"]) for d in case["damage"]), case["path_mode"], case["route"],
-                bool(case.get("parent_named")))
+                bool(case.get("parent_named")), bool(case.get("extra_keys")), bool(case.get("rel_paths")),
+                tuple(f.get("mode", "rand") for f in t["files"]))
 
     def signature(self, case, rec, clause):
         return "%s/v%s" % (clause, case["version"] if case else "?")
@@ -322,6 +324,12 @@ class C05(RecheckProp):
             g += 1
             base = self.mk(rng, P, v, src, 0, ["C05.hundred", "C05.rootparent"], tree=tree, group="g%d" % g)
             base["parent_named"] = g % 6 == 0        # the parent directory is named like the payload
+            base["extra_keys"] = g % 3 == 1          # reference metafiles with keys this tool never writes
+            base["rel_paths"] = g % 4 == 2           # both paths spelled relative to the working directory
+            if g % 5 == 3:                           # contents that are not unique random bytes
+                pat = ("zeros", "repeat", "sparse", "same")[(g // 5) % 4]
+                for f in base["tree"]["files"]:
+                    f["mode"] = pat
             for mode in ("root", "parent"):
                 c = dict(base)
                 c["path_mode"] = mode
